@@ -152,6 +152,12 @@ def family_cases(rng):
     ds = [rng.choice(DATES) for _ in range(n)]
     dpay = [["date", str(__import__("datetime").date.fromisoformat(v).toordinal())] for v in ds]
     add("date", "Date", "object dates", [["date", v] for v in ds], "object", [["none"], ["nan"], ["NaT"]], dpay)
+    # dates outside the int64-nanosecond range (1677..2262): still dates / datetimes when spelled as strings
+    far = [rng.choice(["1500-01-01", "1066-10-14", "9999-12-31", "2500-06-15"]) for _ in range(n)]
+    for dt, sent in (("object", [["none"], ["nan"]]), ("str", [["none"]])):
+        add("date", "Date", "far date strings/" + dt, [["str", v] for v in far], dt, sent, None)
+        add("datetime", "DateTime", "far datetime strings/" + dt, [["str", v + " 10:30:00"] for v in far], dt, sent, None)
+
     add("date", "Date", "datetime64 midnight", [["dt", v + "T00:00:00"] for v in ds], "datetime64[ns]", [["NaT"]], dpay)
     for dt, sent in (("object", [["none"]]), ("str", [["none"]])):
         add("date", "Date", "strings/" + dt, [["str", v] for v in ds], dt, sent, dpay)
